@@ -267,6 +267,9 @@ fn rand_f(rng: &mut Rng, ty: &str, style: usize) -> f64 {
         2 => *rng.pick(&[0.0, 1e-300, 1e-30, 1e-12, 0.5, 1.0, 2.0]),
         // far outside the working range (exp overflows beyond 88.7 in f32 and 709.8 in f64): a third of the entries of such a vector
         4 => if rng.chance(1, 3) { *rng.pick(&[40.0, 89.0, 100.0, 500.0, 709.0, 710.0, 750.0, 1e3, 1e6, 1e18, 1e30]) } else { range * rng.f64_unit() },
+        // (style 5: working-range values; exactly ONE entry of the vector is then replaced by an infinite message, see the caller --
+        // two infinite inputs give inf - inf = NaN in the unchanged code, which is outside what C04 can state)
+        5 => range * rng.f64_unit(),
         _ => range * rng.f64_unit() * rng.f64_unit(),
     };
     let v = if rng.chance(1, 2) { -mag } else { mag };
@@ -344,15 +347,17 @@ pub fn run_c04(ctx: &mut Ctx, replay: Option<&[String]>) {
     for k in 0..ctx.scale(24_000, 400_000) {
         let ty = F_TYPES[k % 8];
         let deg = if k % 100 == 0 { 1 } else { rng.range(2, if k % 4 == 0 { 30 } else { 8 }) };
-        let style = rng.below(5);
+        // style 5 (one or more infinite messages) only for the two families in which inf - inf cannot arise from a single infinite input
+        let style = rng.below(6);
         let mut srcs: Vec<usize> = (0..deg).map(|i| i * 2 + rng.below(2)).collect();
         if rng.chance(1, 2) {
             srcs.reverse();
         }
         // phi / tanh degree-1 checks do not panic (empty product / sum); min* ones do
-        let m: Vec<(usize, f64)> = srcs.into_iter().map(|s| (s, rand_f(&mut rng, ty, style))).collect();
+        let mut m: Vec<(usize, f64)> = srcs.into_iter().map(|s| (s, rand_f(&mut rng, ty, style))).collect();
+        if style == 5 && deg >= 2 { let i = rng.below(m.len()); m[i].1 = if rng.chance(1, 2) { f64::INFINITY } else { f64::NEG_INFINITY }; }
         let tag = if deg < 2 { "float-degree-1" } else if deg <= 8 { "float-degree-2..8" } else { "float-degree-9..30" };
-        let tag2 = if style == 4 { "float-magnitudes-up-to-1e30" } else { "float-working-range" };
+        let tag2 = if style == 4 { "float-magnitudes-up-to-1e30" } else if style == 5 { "float-infinite-message" } else { "float-working-range" };
         ctx.emit(&format!("c04 f {} {}", ty, pairs_f(&m)), &check_f(ty, &m), deg >= 2, &[tag, ty, tag2]);
     }
     // sequences of 2-5 check-node calls on ONE arithmetic object, high degree then low degree
